@@ -75,6 +75,10 @@ def rules(fx, rep):
               '(1-x)*r is a multiple of the group exponent: [1-x]P has order dividing r for every P in E(Fq)')
     rep.check(gcd(M.H1_EFF, M.R_ORDER) == 1 and gcd(M.H2_EFF, M.R_ORDER) == 1, 'CONST', 'h_eff coprime to r',
               'h_eff is invertible mod r (clearing is a bijection on the subgroup)')
+    # the chains meet equal / inverse / identity operands on small-order points: the exceptional-case
+    # skeleton of the group operations they are built from (shared with C01)
+    from props import c01
+    c01.rule_projective_ops(fx, rep)
 
 
 def main(tier, t0):
